@@ -63,7 +63,7 @@ def run(tier):
     # (a) caller data untouched
     scen = []
     for name, sql, modes, tables in QUERIES:
-        for rep in range(3 if quick else 20):
+        for rep in range(3 if quick else 60):
             for mode in modes:
                 n = rng.choice([4, 6, 9])
                 rows = [nested_row(rng, i + 1) for i in range(n)]
